@@ -16,8 +16,12 @@ def main(argv=None):
     ck = Check("C02", argv, level="other")
     t = 30 if ck.tier == "quick" else 90
     res = world.run_functions(ck, MODS, FUNCS, timeout=t, hooks_mod="contracts.parser")
-    world.report(ck, res, select=lambda n: any(k in n for k in KEEP))
     lem = world.run_functions(ck, ["c02"], LEMMAS, timeout=t)
+    applied = set()
+    for r in lem:
+        applied.update(r.get("contracts_applied", []))
+    # the lemmas apply the contracts of the three `received` methods: their frame (modifies) clauses are part of what is relied on
+    world.report(ck, res, select=lambda n: any(k in n for k in KEEP) or "/frame:" in n, also_used=applied)
     world.report(ck, lem, select=lambda n: True)
 
     payload = {"max_cuts": 1, "random_k": 40, "seed": 2} if ck.tier == "quick" else {"max_cuts": 2, "random_k": 400, "seed": 2}
